@@ -3009,7 +3009,7 @@ impl WasmGenerator {
                 self.mem_layout.alloc_offset += size_bytes;
 
                 func.instruction(&W::I32Const(temp_addr as i32)); // dst_ptr
-                self.emit_value_load_typed(array, ValType::I64, func); // array handle
+                self.emit_array_handle_load(array, func); // array handle
                 self.emit_value_load_as_numeric_i64(index, func); // index: use numeric truncation, not bit reinterpret
                 func.instruction(&W::I32Const(elem_size));
                 func.instruction(&W::Call(self.rt.array_get_elem));
@@ -3036,7 +3036,7 @@ impl WasmGenerator {
             I::SetArrayElem(array, index, _value, elem_ty) => {
                 // array_set_elem(arr: i64, index: i64, src_ptr: i32, elem_size_words: i32)
                 let elem_size = elem_ty.word_size() as i32;
-                self.emit_value_load_typed(array, ValType::I64, func);
+                self.emit_array_handle_load(array, func);
                 self.emit_value_load_as_numeric_i64(index, func);
                 func.instruction(&W::I32Const(0)); // src_ptr placeholder
                 func.instruction(&W::I32Const(elem_size));
@@ -4415,6 +4415,24 @@ impl WasmGenerator {
                 std::iter::repeat_n(ValType::I64, word_count)
             })
             .collect()
+    }
+
+    /// Load the array handle an indexing instruction operates on. When the array is a tuple/record
+    /// field (`t.0[i]`), the operand is a `GetElement` register holding the ADDRESS of the field:
+    /// the handle is the word stored there.
+    fn emit_array_handle_load(&mut self, array: &VPtr, func: &mut Function) {
+        use wasm_encoder::Instruction as W;
+        self.emit_value_load_typed(array, ValType::I64, func);
+        if let mir::Value::Register(reg_idx) = array.as_ref()
+            && self.getelement_registers.contains_key(reg_idx)
+        {
+            func.instruction(&W::I32WrapI64);
+            func.instruction(&W::I64Load(MemArg {
+                offset: 0,
+                align: 3,
+                memory_index: 0,
+            }));
+        }
     }
 
     /// Load a value and convert to i64 using numeric truncation (not bit reinterpretation).
